@@ -97,9 +97,13 @@ def r2_combine(ctx):
                 okv = False
             good = astx.u(g0.iter) == f"zip({ivs}, {props})" and astx.u(g1.iter) == f"{pi}.interval.items()" and astx.u(c.key) == key and okv and not g0.ifs and not g1.ifs
     ctx.check(good, f, comps[0] if comps else f.node, "combined support = support * proportion of its own interval (zip of the two lists)", d, f"combination is `{d}`")
-    z = astx.unique_def(f.node, "zero_cands")
     upd = [n for n in astx.walk_own(f.node) if isinstance(n, ast.Assign) and astx.u(n.targets[0]).endswith(".zero_cands")]
-    good = z is not None and astx.u(z) == f"frozenset.union(*[pi.zero_cands for pi in {ivs}])" and len(upd) == 1 and astx.u(upd[0].value).endswith(".zero_cands.union(zero_cands)")
+    good = False
+    if len(upd) == 1:
+        tgt = astx.u(upd[0].targets[0])
+        k = Normalizer(f.node, inline=True, no_inline=[tgt.split(".")[0]]).key(upd[0].value)
+        # the constructor's own zero set (supports that became 0 through a 0 proportion) united with every input's zero set
+        good = k in (f"{tgt}.union(frozenset.union(*[_b0.zero_cands for _b0 in {ivs}]))", f"frozenset.union(*[_b0.zero_cands for _b0 in {ivs}]).union({tgt})")
     ctx.check(good, f, upd[0] if upd else f.node, "zero-support candidates of every interval are carried along (union)", "", "zero-candidate union changed")
     rets = [n for n in astx.walk_own(f.node) if isinstance(n, ast.Return)]
     pi_def = astx.unique_def(f.node, astx.u(rets[0].value)) if rets and isinstance(rets[0].value, ast.Name) else None
@@ -224,10 +228,25 @@ def r4_slate_bt(ctx):
     ctx.check(good, init, tb[0] if tb else init.node, "one type table per bloc against the other bloc", "", "ballot_type_pdf wiring changed")
 
 
+def r5_combined_intervals(ctx):
+    from rules import c16
+    sub = type(ctx)(ctx.prog, ctx.prop, ctx.tier)
+    c16.d6_model_parameters(sub)
+    n = 0
+    for o in sub.obs:
+        if "combine" in o.construct or "interval" in o.construct:
+            o.rule = "C15.R5"
+            ctx.obs.append(o)
+            n += 1
+    if n == 0:
+        ctx.vanished("combined-interval constructions")
+
+
 RULES = [
     ("C15.R1", r1_interval, 6, "PreferenceInterval: zero partition then normalisation by the sum"),
     ("C15.R2", r2_combine, 3, "combine_preference_intervals: support * own proportion; zero sets united"),
     ("C15.R3", r3_name_bt, 3, "name-BT: _make_pow exponents m-i-1; table over all permutations divided by the total"),
+    ("C15.R5", r5_combined_intervals, 7, "the three name-models build a bloc's interval by combine(intervals[bloc][b], cohesion[bloc][b]) over self.blocs (shared with C16.D6)"),
     ("C15.R4", r4_slate_bt, 7, "slate-BT: c^success (1-c)^(total-success); success/total definitions; table over distinct orderings"),
 ]
 
@@ -240,6 +259,9 @@ FAULTS = [
     ("combine pairs reversed", [(PI, "            for pi, prop in zip(intervals, proportions)", "            for pi, prop in zip(intervals, proportions[::-1])")], "C15.R2"),
     ("combine adds proportion", [(PI, "            key: value * prop\n", "            key: value + prop\n")], "C15.R2"),
     ("combine drops zero cands", [(PI, "    sum_pi.zero_cands = sum_pi.zero_cands.union(zero_cands)\n", "")], "C15.R2"),
+    ("combine overwrites the constructor's zero set", [(PI, "    sum_pi.zero_cands = sum_pi.zero_cands.union(zero_cands)\n", "    sum_pi.zero_cands = zero_cands\n")], "C15.R2"),
+    ("BT intervals in dict order, cohesion in bloc order", [(BG, "                    [self.pref_intervals_by_bloc[bloc][b] for b in self.blocs],", "                    list(self.pref_intervals_by_bloc[bloc].values()),", "all")], "C15.R5"),
+    ("slate total counts zero-support candidates", [(BG, "                len(interval.non_zero_cands)\n                for interval in self.pref_intervals_by_bloc[bloc].values()", "                len(interval.candidates)\n                for interval in self.pref_intervals_by_bloc[bloc].values()")], "C15.R4"),
     ("make_pow exponent m-i", [(BG, "                ret *= val ** (m - i - 1)", "                ret *= val ** (m - i)")], "C15.R3"),
     ("make_pow skips first", [(BG, "            if i < m - 1:\n                ret *= val ** (m - i - 1)", "            if 0 < i < m - 1:\n                ret *= val ** (m - i - 1)")], "C15.R3"),
     ("BT pdf supports sorted", [(BG, "            return [dct[i] for i in lst]", "            return sorted([dct[i] for i in lst], reverse=True)")], "C15.R3"),
